@@ -421,6 +421,29 @@ def count_lex_errors(lex_line):
     return len(re.findall(r"\(err ", lex_line or ""))
 
 
+_PRIVATE_DRIVER = {}
+
+
+def model_batch(ctx, lines):
+    """ctx.model_batch on a private copy of the driver binary taken once per run: other checks running
+    concurrently re-link `gvdriver` (lake removes the file while doing so)."""
+    import os
+    import shutil
+    import time
+    from . import common
+    key = os.getpid()
+    if key not in _PRIVATE_DRIVER:
+        dst = os.path.join(ctx.scratch("driver"), "gvdriver")
+        for _ in range(120):
+            try:
+                shutil.copy2(common.DRIVER, dst)
+                break
+            except (FileNotFoundError, OSError):
+                time.sleep(1)
+        _PRIVATE_DRIVER[key] = dst
+    return common.batch([_PRIVATE_DRIVER[key]], lines)
+
+
 def parse_both(ctx, sources, pinned=False):
     """For each source text: run the real lexer and parser (hook ops `lex`, `ast`) and the Lean parser
     model on the REAL token list. Returns a list of dicts:
@@ -429,7 +452,7 @@ def parse_both(ctx, sources, pinned=False):
     lex = ctx.garden_batch(["lex " + hexs(s) for s in sources])
     ast = ctx.garden_batch(["ast " + hexs(s) for s in sources])
     op = "parse_tokens_pinned " if pinned else "parse_tokens "
-    model = ctx.model_batch([op + (l[3:] if l and l.startswith("OK ") else "") for l in lex])
+    model = model_batch(ctx, [op + (l[3:] if l and l.startswith("OK ") else "") for l in lex])
     out = []
     for s, l, a, m in zip(sources, lex, ast, model):
         r = {"src": s, "lex": l}
